@@ -500,20 +500,21 @@ pub struct FileTables;
 const FT_ENTSIZES: [u64; 9] = [u64::MAX, 0, 1, 7, 8, 12, 16, 24, 48]; // MAX = the structure's own size
 impl FileTables {
     fn dims() -> [u64; 5] {
-        // enc, kind {REL, RELA, DYNAMIC by section, DYNAMIC by segment only}, whole entries 0..=5, ragged tail class, declared sh_entsize
-        [4, 4, 6, 3, FT_ENTSIZES.len() as u64]
+        // enc, kind {REL, RELA, DYNAMIC by section, DYNAMIC by segment only, SYMTAB, DYNSYM}, whole entries 0..=5, ragged tail class,
+        // declared sh_entsize (relocations) / sh_flags variant (symbol tables)
+        [4, 6, 6, 3, FT_ENTSIZES.len() as u64]
     }
 }
 impl Space for FileTables {
     fn name(&self) -> String {
-        "ElfBytes and ElfStream: section_data_as_rels / section_data_as_relas / dynamic() via .dynamic / dynamic() and find_common_data() via PT_DYNAMIC alone on generated files: 0..=5 whole entries + a ragged tail of {0, 1, entsize-1} bytes x declared sh_entsize in {own size, 0, 1, 7, 8, 12, 16, 24, 48} (relocations only) x 4 encodings; the entries yielded are exactly the whole entries of the bytes, in order".into()
+        "ElfBytes and ElfStream: section_data_as_rels / section_data_as_relas / dynamic() via .dynamic / dynamic() and find_common_data() via PT_DYNAMIC alone on generated files: 0..=5 whole entries + a ragged tail of {0, 1, entsize-1} bytes x declared sh_entsize in {own size, 0, 1, 7, 8, 12, 16, 24, 48} (relocations only) x 4 encodings; the entries yielded are exactly the whole entries of the bytes, in order; symbol_table / dynamic_symbol_table / find_common_data (both parsers) on 1..=5 symbols under sh_flags in {0, ALLOC, COMPRESSED, ALLOC|COMPRESSED, MERGE|STRINGS}".into()
     }
     fn size(&self) -> u64 {
         product(&Self::dims())
     }
     fn describe(&self, idx: u64) -> Value {
         let d = unmix(idx, &Self::dims());
-        let kind = ["SHT_REL", "SHT_RELA", ".dynamic section", "PT_DYNAMIC only"][d[1] as usize];
+        let kind = ["SHT_REL", "SHT_RELA", ".dynamic section", "PT_DYNAMIC only", "SHT_SYMTAB", "SHT_DYNSYM"][d[1] as usize];
         json!({"encoding": ENCS[d[0] as usize].name(), "table": kind, "whole_entries": d[2], "ragged_tail_class": d[3], "declared_entsize": if d[4] == 0 { "own".to_string() } else { FT_ENTSIZES[d[4] as usize].to_string() }})
     }
     fn run(&self, idx: u64, out: &mut Outcome) {
@@ -522,6 +523,9 @@ impl Space for FileTables {
         let d = unmix(idx, &Self::dims());
         let enc = ENCS[d[0] as usize];
         let kind = d[1] as usize;
+        if kind >= 4 {
+            return self.run_symtab(idx, out);
+        }
         let (t, k) = match kind {
             0 => (7usize, Kind::Rel),
             1 => (8, Kind::Rela),
@@ -644,6 +648,66 @@ impl Space for FileTables {
                 if n > 0 {
                     out.nontrivial(idx ^ 0xf17e);
                 }
+            }
+        }
+    }
+}
+
+impl FileTables {
+    /// Symbol tables reached through the file: the table is the whole entries of the section's bytes
+    /// whatever flags the section header carries (SHF_ALLOC, SHF_COMPRESSED, ...); both parsers.
+    fn run_symtab(&self, idx: u64, out: &mut Outcome) {
+        use refmodel::image::*;
+        use refmodel::layout::{SHT_DYNSYM, SHT_STRTAB, SHT_SYMTAB};
+        let d = unmix(idx, &Self::dims());
+        if d[4] >= 5 {
+            out.count("five_flag_variants_for_symbol_tables");
+            return;
+        }
+        let enc = ENCS[d[0] as usize];
+        let dynsym = d[1] == 5;
+        let ent = layout(Kind::Sym, enc.class).size;
+        let n = d[2] as usize;
+        let tail = [0, 1, ent - 1][d[3] as usize];
+        if n == 0 || tail != 0 {
+            // symbol tables of ragged size are rejected or accepted alike by both parsers (C05 / C07)
+            out.count("symbol_tables_with_whole_entries_only");
+            return;
+        }
+        let flags = [0u64, 2, 0x800, 0x802, 0x30][d[4] as usize];
+        let body: Vec<u8> = (0..n * ent).map(|i| (i as u8).wrapping_mul(29) ^ 0xa5 ^ ((i >> 2) as u8)).collect();
+        let mut spec = Spec::new(enc, TableOrder::TablesFirst);
+        spec.secs = vec![
+            Sec::new(b".tab", if dynsym { SHT_DYNSYM } else { SHT_SYMTAB }, body.clone()).entsize(ent as u64).link(2).flags(flags),
+            Sec::new(b".str", SHT_STRTAB, b"\0abc\0".to_vec()),
+        ];
+        let bytes = build(&spec).bytes;
+        let truth: Vec<u64> = (0..n).map(|i| ref_entry(2, enc, &body, i)).collect();
+        let ctx = format!("{} {} with {} entries and sh_flags {:#x}", enc.name(), if dynsym { "SHT_DYNSYM" } else { "SHT_SYMTAB" }, n, flags);
+        let r = subject(|| {
+            let f = elf::ElfBytes::<AnyEndian>::minimal_parse(&bytes).ok()?;
+            let a = if dynsym { f.dynamic_symbol_table() } else { f.symbol_table() }.ok().flatten().map(|(t, _)| t.iter().map(|x| x.dig()).collect::<Vec<u64>>());
+            let c = f.find_common_data().ok().and_then(|c| if dynsym { c.dynsyms } else { c.symtab }).map(|t| t.iter().map(|x| x.dig()).collect::<Vec<u64>>());
+            let mut s = elf::ElfStream::<AnyEndian, _>::open_stream(std::io::Cursor::new(bytes.clone())).ok()?;
+            let st = if dynsym { s.dynamic_symbol_table() } else { s.symbol_table() }.ok().flatten().map(|(t, _)| t.iter().map(|x| x.dig()).collect::<Vec<u64>>());
+            Some(vec![("ElfBytes targeted accessor", a), ("find_common_data", c), ("ElfStream accessor", st)])
+        });
+        out.transitions += 3;
+        match r {
+            Err(m) => out.violate(format!("panic:symbol table accessors in {}", panic_site(&m)), m),
+            Ok(None) => out.violate("file-tables:generated file does not open", ctx),
+            Ok(Some(views)) => {
+                for (name, got) in views {
+                    match got {
+                        None => out.violate(format!("file-tables:{name} yields no symbol table"), ctx.clone()),
+                        Some(items) => {
+                            if items != truth {
+                                out.violate(format!("file-tables:{name}"), format!("{ctx}: {} entries are yielded{}, the section holds {}", items.len(), if items.len() == truth.len() { " (contents differ)" } else { "" }, truth.len()));
+                            }
+                        }
+                    }
+                }
+                out.nontrivial(idx ^ 0x5717);
             }
         }
     }
